@@ -45,7 +45,7 @@ CLAIMED = {
    category="exploration",
    technique="property-based testing (rapid): grammar-derivation, corpus-mutation and sibling generators; round-trip (emit-parse fixed point) and metamorphic (content-token multiset, single-token sibling, spelling-synonym) oracles; coverage-guided native fuzz target FuzzC07 (90 s) in the thorough tier",
    text="For every generated text accepted by frontend.ParseCypher(NewContext()): emit-parse is a fixed point with structurally equal models, the multiset of content tokens (names, literals by value, keywords, operators, range bounds - taken with DAWGS's own ANTLR lexer) of the input equals that of the emitted text up to a stated list of openCypher notational equivalences, and a sibling text differing in one meaning-bearing token has a different model. Texts come from random derivations of the shipped Cypher.g4 (all parser rules, unsupported constructs included), the whole query corpus of the tree (enumerated) and token mutations of it. Sampling: the accepted language is infinite; the failures found (16 fixed) were all shallow.",
-   note="The notational-equivalence list (*.. = *, *n = *n..n, <--> = --, repeated kinds, reserved words as schema names, ASC default, grouping punctuation) is part of the trusted base; rejected inputs carry no obligation here (C08); acceptance rate of grammar derivations ~20-25%.",
+   note="The notational-equivalence list (*.. = *, *n = *n..n, <--> = --, repeated kinds, reserved words as schema names, ASC default, grouping punctuation) is part of the trusted base; an accepted text in which the lexer found stretches that are no token is a violation (they were dropped); rejected inputs carry no obligation here (C08); acceptance rate of grammar derivations ~20-25%.",
    design="§4 C07"),
  "C08": dict(
    category="exploration",
@@ -81,7 +81,7 @@ CLAIMED = {
    category="exploration",
    technique="stateful property-based testing (rapid) against a map model; porcupine linearizability + race detector for the wrappers",
    text="Generated operation histories over every receiver/operand pairing of {bitmap, threadSafe, threadSafe(threadSafe)} x {32,64 bit} are compared with a map[T]struct{} model after every step (cardinality, slice, each, contains, operand unchanged, clones independent); concurrent histories on one wrapper are checked for per-key linearizability with porcupine and run under the race detector in both tiers. Sampling, not proof: right level because the state space (values x histories x schedules) is unbounded but failures are shallow and shrink well.",
-   note="Receiver and operand are distinct objects that do not wrap each other; schedules are sampled (GOMAXPROCS varied), not enumerated; the roaring library is inside the tested system.",
+   note="A second generated family (large) describes sets by runs of up to 10000 members (container-type and batch-size boundaries: 511/512/513, 4095/4096/4097), overlapping operands in all wrappings and early-stopped iteration, with the same model comparison after every operation. Receiver and operand are distinct objects that do not wrap each other; schedules are sampled (GOMAXPROCS varied), not enumerated; the roaring library is inside the tested system.",
    design="§4 C13"),
  "C14": dict(
    category="exploration",
